@@ -1,3 +1,4 @@
+import Lean
 import CircBuf.Generated.Core
 import CircBuf.Lemmas.Loops
 set_option linter.unusedSimpArgs false
@@ -96,10 +97,56 @@ theorem readInit_twice (i : Nat) (g : Elem → Elem → M β) :
   split
   · split <;> simp_all
   · rfl
+theorem dropInPlace_nil : dropInPlace [] = (pure () : M Unit) := rfl
+theorem range'_zero_len (a : Nat) : List.range' a 0 = [] := rfl
 theorem ite_run (c : Prop) [Decidable c] (x y : M α) (s : Sys) :
     (if c then x else y) s = if c then x s else y s := by
   split <;> rfl
 end
+
+section tactics
+open Lean Elab Tactic Meta
+
+/-- case split on the condition of the first `if … then … else` of the goal (outermost first) and
+rewrite with it.  (`split` runs a full `simp` pass over the goal for every branch and gives up on the
+larger bodies; this does one `by_cases`.) -/
+elab "ifsplit1" : tactic => withMainContext do
+  let g ← getMainGoal
+  let t ← instantiateMVars (← g.getType)
+  let some c := t.find? (fun e => e.isAppOfArity ``ite 5 && !(e.getArg! 1).hasLooseBVars)
+    | throwError "ifsplit1: no if-then-else in the goal"
+  let cond := c.getArg! 1
+  let (s1, s2) ← g.byCases cond `hif
+  let h := mkIdent `hif
+  let tac ← `(tactic| first
+    | (exfalso; omega)          -- a branch the arithmetic facts already exclude
+    | (try simp only [$h:ident, if_true, if_false, ite_true, ite_false, not_true_eq_false,
+        not_false_eq_true, true_and, and_true, false_and, and_false, true_or, or_true, false_or, or_false,
+        decide_true, decide_false, Bool.false_eq_true]))
+  let gs1 ← evalTacticAt tac s1.mvarId
+  let gs2 ← evalTacticAt tac s2.mvarId
+  replaceMainGoal (gs1 ++ gs2)
+
+/-- case split on the first scrutinee of the goal that is a checked arithmetic step (`add_mod`,
+`sub_mod`, `+`, `-`, …: ok / panic) or the content of a slot (`some` / `none`) -/
+elab "esplit1" : tactic => withMainContext do
+  let g ← getMainGoal
+  let t ← instantiateMVars (← g.getType)
+  let isTarget (e : Expr) : Bool :=
+    !e.hasLooseBVars &&
+      (e.isAppOfArity ``CircBuf.addMod 3 || e.isAppOfArity ``CircBuf.subMod 3 || e.isAppOfArity ``CircBuf.uadd 2 ||
+       e.isAppOfArity ``CircBuf.usub 2 || e.isAppOfArity ``CircBuf.umul 2 || e.isAppOfArity ``CircBuf.umod 2 ||
+       e.isAppOfArity ``CircBuf.CB.items 2)
+  let some e := t.find? isTarget | throwError "esplit1: nothing to split on"
+  let (xs, g1) ← g.generalize #[{ expr := e }]
+  let subgoals ← g1.cases xs[0]!
+  let tac ← `(tactic| try simp only [])
+  let mut out := []
+  for sg in subgoals do
+    out := out ++ (← evalTacticAt tac sg.mvarId)
+  replaceMainGoal out
+
+end tactics
 
 /-- evaluate both sides on an arbitrary state down to the primitive steps, then compare case by case -/
 syntax "tie" "[" Lean.Parser.Tactic.simpLemma,* "]" : tactic
@@ -110,10 +157,30 @@ macro_rules
        liftE_dassertE, bind_assoc_run, dassert_bind, getBuf_bind, setBuf_bind,
        pure_bind_run, raise_bind, ite_bind, ite_run, dassert_run, getBuf_run, setBuf_run,
        pure_run, raise_run, amod, smod, setStart, setSize, setItems, checkIdx_bind, checkIdx_run',
-       readInit_bind, readInit_run', writeCell_bind, writeCell_run', checkRange, View.sub, View.splitAt, View.all, View.empty, checkedSub]
+       readInit_bind, readInit_run', writeCell_bind, writeCell_run', checkRange, View.sub, View.splitAt, View.all, View.empty, checkedSub,
+       View.slots, Nat.zero_add, Nat.add_zero, Nat.sub_zero, range'_zero_len, dropInPlace_nil, Nat.zero_le, true_and]
      <;> (try simp only [liftE_bind, liftE_run, bind_assoc_run, dassert_bind, getBuf_bind, setBuf_bind,
        pure_bind_run, raise_bind, ite_bind, ite_run, dassert_run, getBuf_run, setBuf_run, pure_run, raise_run,
-       checkIdx_bind, checkIdx_run', readInit_bind, readInit_run', writeCell_bind, writeCell_run'])
+       checkIdx_bind, checkIdx_run', readInit_bind, readInit_run', writeCell_bind, writeCell_run',
+       decide_eq_true_eq, Nat.not_lt, Nat.not_le, range'_zero_len, dropInPlace_nil])
+     <;> (repeat' (first | rfl | ifsplit1 | esplit1 | split)) <;> (try subst_vars) <;> (try simp_all) <;> (try omega)))
+
+
+/-- the same with Lean's own `split` only -/
+syntax "tieS" "[" Lean.Parser.Tactic.simpLemma,* "]" : tactic
+macro_rules
+  | `(tactic| tieS [$ls,*]) =>
+  `(tactic| ((try simp only [$ls,*, readInit_twice])
+     <;> simp only [$ls,*, liftE_ite, liftE_ok_eq, liftE_pure_eq, liftE_error_eq, liftE_bind_dist,
+       liftE_dassertE, bind_assoc_run, dassert_bind, getBuf_bind, setBuf_bind,
+       pure_bind_run, raise_bind, ite_bind, ite_run, dassert_run, getBuf_run, setBuf_run,
+       pure_run, raise_run, amod, smod, setStart, setSize, setItems, checkIdx_bind, checkIdx_run',
+       readInit_bind, readInit_run', writeCell_bind, writeCell_run', checkRange, View.sub, View.splitAt, View.all, View.empty, checkedSub,
+       View.slots, Nat.zero_add, Nat.add_zero, Nat.sub_zero, range'_zero_len, dropInPlace_nil, Nat.zero_le, true_and]
+     <;> (try simp only [liftE_bind, liftE_run, bind_assoc_run, dassert_bind, getBuf_bind, setBuf_bind,
+       pure_bind_run, raise_bind, ite_bind, ite_run, dassert_run, getBuf_run, setBuf_run, pure_run, raise_run,
+       checkIdx_bind, checkIdx_run', readInit_bind, readInit_run', writeCell_bind, writeCell_run',
+       decide_eq_true_eq, Nat.not_lt, Nat.not_le, range'_zero_len, dropInPlace_nil])
      <;> (repeat' split) <;> (try subst_vars) <;> (try simp_all) <;> (try omega)))
 
 
@@ -151,13 +218,15 @@ macro_rules
        liftE_dassertE, bind_assoc_run, dassert_bind, getBuf_bind, setBuf_bind,
        pure_bind_run, raise_bind, ite_bind, ite_run, dassert_run, getBuf_run, setBuf_run,
        pure_run, raise_run, amod, smod, setStart, setSize, setItems, checkIdx_bind, checkIdx_run',
-       readInit_bind, readInit_run', writeCell_bind, writeCell_run', checkRange, View.sub, View.splitAt, View.all, View.empty, checkedSub]
+       readInit_bind, readInit_run', writeCell_bind, writeCell_run', checkRange, View.sub, View.splitAt, View.all, View.empty, checkedSub,
+       View.slots, Nat.zero_add, Nat.add_zero, Nat.sub_zero, range'_zero_len, dropInPlace_nil, Nat.zero_le, true_and]
      try simp only [liftE_bind, liftE_run, bind_assoc_run, dassert_bind, getBuf_bind, setBuf_bind,
        pure_bind_run, raise_bind, ite_bind, ite_run, dassert_run, getBuf_run, setBuf_run, pure_run, raise_run,
-       checkIdx_bind, checkIdx_run', readInit_bind, readInit_run', writeCell_bind, writeCell_run']
+       checkIdx_bind, checkIdx_run', readInit_bind, readInit_run', writeCell_bind, writeCell_run',
+       decide_eq_true_eq, Nat.not_lt, Nat.not_le, range'_zero_len, dropInPlace_nil]
      try simp (disch := omega) only [addMod_ite, subMod_ite, uadd_ok', usub_ok', decide_eq_true_eq, if_pos,
        if_neg, Nat.mod_lt, gt_iff_lt, ge_iff_le, Nat.add_sub_cancel]
-     all_goals (repeat' split)
+     all_goals (repeat' (first | rfl | ifsplit1 | esplit1 | split))
      all_goals (try subst_vars)
      all_goals (try simp (disch := omega) only [addMod_ite, subMod_ite, uadd_ok', usub_ok', decide_eq_true_eq, if_pos,
        if_neg, Nat.mod_lt, gt_iff_lt, ge_iff_le, Nat.add_sub_cancel] at *)
